@@ -99,6 +99,16 @@ def ex(n):
             return "(isSmall_gen set)"
         if m == "_set" and nm == "insert" and len(args) == 1:
             return "SETINS %s" % ex(args[0])
+        if m == "_set" and nm == "find" and len(args) == 1:
+            return "(set_find cmp set %s)" % ex(args[0])
+        if m == "_set" and nm == "count" and len(args) == 1:
+            return "(set_contains cmp set %s)" % ex(args[0])
+        if m == "_set" and nm == "erase" and len(args) == 1:
+            return "SETERASE %s" % ex(args[0])
+        if m == "_vec" and nm == "erase" and len(args) == 1:
+            return "VECERASE %s" % ex(args[0])
+        if m == "this" and nm == "contains" and len(args) == 1:
+            return "(contains_gen cmp vec set %s)" % ex(args[0])
         if m == "this" and nm == "insert_small" and len(args) == 1:
             return "(insert_small_gen cmp N vec set %s)" % ex(args[0])
         if m == "this" and nm == "insert_set" and len(args) == 1:
@@ -110,10 +120,16 @@ def ex(n):
             return ex(n["inner"][1])
         raise U("call " + nm)
     if k == "ConditionalOperator":
-        return "(if %s then %s else %s)" % (ex(n["inner"][0]), ret(ex(n["inner"][1])), ret(ex(n["inner"][2])))
+        a, b = ex(n["inner"][1]), ex(n["inner"][2])
+        if a.startswith(("SETINS", "PAIR", "(insert_")) or b.startswith(("SETINS", "PAIR", "(insert_")):
+            a, b = ret(a), ret(b)
+        return "(if %s then %s else %s)" % (ex(n["inner"][0]), a, b)
     if k in ("CXXConstructExpr", "CXXTemporaryObjectExpr") and len(n.get("inner", [])) == 2:
         return "PAIR %s, %s" % (ex(n["inner"][0]), ex(n["inner"][1]))
     raise U("expression " + k)
+
+
+MODE = [""]
 
 
 def ret(e):
@@ -121,6 +137,10 @@ def ret(e):
         return "(set_ins cmp vec set %s)" % e[len("SETINS "):]
     if e.startswith("PAIR "):
         return "(vec, set, %s)" % e[len("PAIR "):]
+    if e.startswith("SETERASE "):
+        return "(set_erase_key cmp vec set %s)" % e[len("SETERASE "):]
+    if MODE[0] == "erase" and e in ("0", "1"):
+        return "(vec, set, %s)" % e
     if e.startswith(("(if ", "(insert_small_gen ", "(insert_set_gen ")):
         return e
     raise U("return of " + e)
@@ -156,6 +176,8 @@ def block(stmts, k):
             return "let '(vec, set) := grow_p cmp vec set in\n%s" % block(rest, k)
         if m == "_vec" and nm in ("push_back", "emplace_back") and len(t["inner"]) == 2:
             return "let vec := vec ++ [%s] in\n%s" % (ex(t["inner"][1]), block(rest, k))
+        if m == "_vec" and nm == "erase" and len(t["inner"]) == 2:
+            return "let vec := vec_erase vec %s in\n%s" % (ex(t["inner"][1]), block(rest, k))
     raise U("statement " + kind + "/" + t["kind"])
 
 
@@ -186,6 +208,9 @@ def main():
             ("insert_small", "insert_small_gen", "(cmp : Z -> Z -> bool) (N : Z) (vec set : list Z) (v : Z) : list Z * list Z * Z * bool", "const int &"),
             ("insert_set", "insert_set_gen", "(cmp : Z -> Z -> bool) (vec set : list Z) (v : Z) : list Z * list Z * Z * bool", "const int &"),
             ("insert", "insert_gen", "(cmp : Z -> Z -> bool) (N : Z) (vec set : list Z) (v : Z) : list Z * list Z * Z * bool", "(const int &)"),
+            ("find", "find_gen", "(cmp : Z -> Z -> bool) (vec set : list Z) (k : Z) : Z", "::const_reference) const"),
+            ("contains", "contains_gen", "(cmp : Z -> Z -> bool) (vec set : list Z) (k : Z) : bool", "::const_reference) const"),
+            ("erase", "erase_key_gen", "(cmp : Z -> Z -> bool) (vec set : list Z) (v : Z) : list Z * list Z * Z", "::size_type (amc::SmallSet<int, 3>::const_reference)"),
         ]
         for cname, gname, sig, tf in specs:
             found = None
@@ -201,7 +226,8 @@ def main():
             try:
                 body = [c for c in found["inner"] if c["kind"] == "CompoundStmt"][0]
                 stmts = body.get("inner") or []
-                if len(stmts) == 1 and stmts[0]["kind"] == "ReturnStmt" and gname in ("isSmall_gen", "isSmallContFull_gen"):
+                MODE[0] = "erase" if gname == "erase_key_gen" else ""
+                if len(stmts) == 1 and stmts[0]["kind"] == "ReturnStmt" and gname in ("isSmall_gen", "isSmallContFull_gen", "find_gen", "contains_gen"):
                     g = ex(stmts[0]["inner"][0])
                 else:
                     g = block([body], None)
